@@ -76,15 +76,38 @@ Theorem c03_state_tracks_order_in_effect :
 Proof. exact run_agrees. Qed.
 Print Assumptions c03_state_tracks_order_in_effect.
 
-(* ---- (c) resolver side: model of the Flattener (semantic/resolver/flatten.rs), compared with the
-   implementation's RQ (Take.sort, Compute.window.sort, surviving Sort transforms) on every generated
-   program.  Whatever sorts are dropped in front of a group, every take and every windowed compute is
-   handed exactly the order in effect at its position, at any nesting depth of group/window bodies. *)
-Theorem c03_flattener_carries_order_in_effect : forall (key : Type) (empty : key) fuel und part s p,
+(* ---- (c) resolver side: model of the Flattener (semantic/resolver/flatten.rs as of fixes 8f24a64, 592b6f8, 8d54bf7),
+   compared with the implementation's RQ (Take.sort, Compute.window.sort, partitions, surviving Sort transforms) on
+   every generated program.  Whatever sorts are dropped in front of a group, every take and every windowed compute
+   is handed exactly the order in effect at its position, at any nesting depth of group/window bodies.
+
+   Full statement (FALSE of the faithful model, finding F44: inside a group body the code does not end the sort at an
+   aggregate, so what follows the aggregate in that body is handed a sort whose columns no longer exist):
+     forall key empty fuel und part s p,
+       carried_of key (fst (flat key empty fuel und part s p)) = fst (carried_spec key empty fuel part s p) /\
+       snd (flat key empty fuel und part s p) = snd (carried_spec key empty fuel part s p)                            *)
+Theorem c03_flattener_carries_order_in_effect_partial : forall (key : Type) (empty : key) fuel und part s p,
+  Flatten.tame key fuel (Flatten.in_group part) p = true ->
   Flatten.carried_of key (fst (Flatten.flat key empty fuel und part s p)) = fst (Flatten.carried_spec key empty fuel part s p) /\
-  snd (Flatten.flat key empty fuel und part s p) = snd (Flatten.carried_spec key empty fuel part s p).
-Proof. exact flat_carries_order_in_effect. Qed.
-Print Assumptions c03_flattener_carries_order_in_effect.
+  (FlattenProofs.ends_agg key (Flatten.in_group part) p = false ->
+   snd (Flatten.flat key empty fuel und part s p) = snd (Flatten.carried_spec key empty fuel part s p)).
+Proof. exact flat_carries_order_in_effect_partial. Qed.
+Print Assumptions c03_flattener_carries_order_in_effect_partial.
+
+(* a whole query (not a group body): also the order left in effect at its end *)
+Theorem c03_flattener_carries_order_in_effect_top : forall (key : Type) (empty : key) fuel und s p,
+  Flatten.tame key fuel false p = true ->
+  Flatten.carried_of key (fst (Flatten.flat key empty fuel und None s p)) = fst (Flatten.carried_spec key empty fuel None s p) /\
+  snd (Flatten.flat key empty fuel und None s p) = snd (Flatten.carried_spec key empty fuel None s p).
+Proof. exact flat_carries_order_in_effect_top. Qed.
+Print Assumptions c03_flattener_carries_order_in_effect_top.
+
+Theorem c03_flattener_carries_order_in_effect_refuted :
+  exists p : list (pitem (list bool)),
+    Flatten.carried_of (list bool) (fst (Flatten.flat (list bool) [] 20 false None [] p))
+    <> fst (Flatten.carried_spec (list bool) [] 20 None [] p).
+Proof. exists [PGroup true [PSort [false]; PAgg; PTake]]. vm_compute. discriminate. Qed.
+Print Assumptions c03_flattener_carries_order_in_effect_refuted.
 
 Theorem c03_plain_pipeline_keeps_sorts : forall (key : Type) (empty : key) p fuel part s,
   FlattenProofs.plain key p = true -> length p < fuel ->
@@ -95,8 +118,24 @@ Print Assumptions c03_plain_pipeline_keeps_sorts.
 (* F37 at model level: two takes under different sorts in front of a group lose both Sort transforms
    (the takes still carry their sorts, but nothing separates them any more) *)
 Example c03_ex_f37 :
-  fst (Flatten.flat (list bool) [] 20 false false [] [PSort [false]; PTake; PSort [true]; PTake; PGroup true [PTake]])
+  fst (Flatten.flat (list bool) [] 20 false None [] [PSort [false]; PTake; PSort [true]; PTake; PGroup true [PTake]])
   = [OTake false [false]; OTake false [true]; OTake true []].
+Proof. vm_compute. reflexivity. Qed.
+(* F44 at model level, and the tame class is inhabited by programs with aggregates inside and outside of groups *)
+Example c03_ex_f44 :
+  fst (Flatten.flat (list bool) [] 20 false None [] [PGroup true [PSort [false]; PAgg; PTake]]) = [OTake true [false]].
+Proof. vm_compute. reflexivity. Qed.
+Example c03_ex_tame :
+  Flatten.tame (list bool) 20 false [PSort [true]; PGroup true [PSort [false]; PTake; PAgg]; PSort [false]; PAgg; PWin] = true.
+Proof. vm_compute. reflexivity. Qed.
+(* fix 8d54bf7: outside of groups an aggregate ends the sort (the take after it is handed none) *)
+Example c03_ex_aggregate_ends_sort :
+  fst (Flatten.flat (list bool) [] 20 false None [] [PSort [false]; PAgg; PTake]) = [OSort [false]; OTake false []].
+Proof. vm_compute. reflexivity. Qed.
+(* fix 592b6f8: what follows a nested group inside a group body is partitioned by the outer group again *)
+Example c03_ex_nested_group_restores_partition :
+  fst (Flatten.flat (list bool) [] 20 false None [] [PGroup true [PGroup false [PTake]; PSort [true]; PTake]])
+  = [OTake false []; OTake true [true]].
 Proof. vm_compute. reflexivity. Qed.
 
 (* non-vacuity: sort | take | filter, cut after the take: the main query re-emits the sort *)
